@@ -1,6 +1,7 @@
 (* C12 - Pausing stops exactly the flows it names. *)
 From Cctp Require Import Lib.Bytes Lib.SMap Lib.Text Lib.Bech32.
 From Cctp Require Import Model.Codec Model.State Model.Attest Model.Ledger Model.Handlers Model.Chain.
+From Cctp Require Import Vectors.Examples.
 From Cctp Require Import Spec.Roles Proofs.MonadFacts Proofs.FrameFacts Proofs.FlowFacts Proofs.AdminFacts Proofs.PauseFacts.
 From Cctp Require Import Gen.GoH_PauseBurningAndMinting Gen.GoH_UnpauseBurningAndMinting Gen.GoH_PauseSendingAndReceivingMessages Gen.GoH_UnpauseSendingAndReceivingMessages.
 
@@ -87,6 +88,30 @@ Theorem C12_go_pause_handlers_are_the_model :
   go_UnpauseSendingAndReceivingMessages_ok.
 Proof. split; [exact go_PauseBurningAndMinting_ok_proof|]. split; [exact go_UnpauseBurningAndMinting_ok_proof|]. split; [exact go_PauseSendingAndReceivingMessages_ok_proof|]. exact go_UnpauseSendingAndReceivingMessages_ok_proof. Qed.
 
+(* A paused period: from a chain where sending/receiving is paused, along any history that contains no pause or
+   unpause of that flag (whatever else it contains, by whomever), the flag stays as it is and not one flow of the
+   history succeeds ([ok_flows]: the number of flows of the history that succeeded); likewise for burning/minting
+   and the deposits, deposit replacements and mints it names. *)
+Theorem C12_nothing_flows_during_a_sending_and_receiving_pause : forall e h c, flag_on (sr_paused (c_st c)) = true ->
+  (forall s, In s h -> touches_sr (snd s) = false) ->
+  sr_paused (c_st (run e c h)) = sr_paused (c_st c) /\ ok_flows e c h = 0.
+Proof. intros e h. exact (sr_paused_period e h). Qed.
+
+Theorem C12_nothing_burns_or_mints_during_a_burning_and_minting_pause : forall e h c, flag_on (bm_paused (c_st c)) = true ->
+  (forall s, In s h -> touches_bm (snd s) = false) ->
+  bm_paused (c_st (run e c h)) = bm_paused (c_st c) /\ ok_bm_named e c h = 0.
+Proof. intros e h. exact (bm_paused_period e h). Qed.
+
+(* non-vacuity: the pauser pauses; the deposit that succeeded before now fails, with a role update in between, and
+   succeeds again after the unpause *)
+Example C12_paused_period_example :
+  let paused := r_chain (deliver ex_env ex_chain [] (PauseSendingAndReceivingMessages ex_bob)) in
+  let h := [([], ex_deposit); ([], UpdatePauser ex_alice ex_carol); ([], ex_deposit)] in
+  flag_on (sr_paused (c_st paused)) = true /\ forallb (fun s => negb (touches_sr (snd s))) h = true /\
+  ok_flows ex_env paused h = 0 /\ ok_flows ex_env ex_chain h = 2 /\
+  ok_flows ex_env paused (h ++ [([], UnpauseSendingAndReceivingMessages ex_carol); ([], ex_deposit)]) = 1.
+Proof. vm_compute. repeat split; reflexivity. Qed.
+
 Print Assumptions C12_sr_paused_blocks_all_flows.
 Print Assumptions C12_bm_paused_blocks_deposits_and_mints.
 Print Assumptions C12_bm_flag_does_not_affect_other_flows.
@@ -97,3 +122,5 @@ Print Assumptions C12_idempotent.
 Print Assumptions C12_pause_sets_the_flag.
 Print Assumptions C12_unpause_restores.
 Print Assumptions C12_go_pause_handlers_are_the_model.
+Print Assumptions C12_nothing_flows_during_a_sending_and_receiving_pause.
+Print Assumptions C12_nothing_burns_or_mints_during_a_burning_and_minting_pause.
